@@ -2,9 +2,9 @@ SPEC = {
     "id": "C06",
     "level": "other",
     "sidecars": ["fingerprint_url", "normalize_url"],
-    "functions": ["ural/fingerprint_url.py:strip_lang_subdomains_from_hostname", "ural/fingerprint_url.py:strip_lang_subdomain_from_hostname", "ural/fingerprint_url.py:lang_query_item_filter", "ural/normalize_url.py:should_strip_query_item",
+    "functions": ['ural/utils.py:unsplit_netloc', "ural/fingerprint_url.py:strip_lang_subdomains_from_hostname", "ural/fingerprint_url.py:strip_lang_subdomain_from_hostname", "ural/fingerprint_url.py:lang_query_item_filter", "ural/normalize_url.py:should_strip_query_item",
                   "ural/fingerprint_url.py:fingerprint_url", "ural/fingerprint_url.py:fingerprint_hostname"],
-    "function_sidecars": {"ural/fingerprint_url.py:fingerprint_url": ["fingerprint_url_main"], "ural/fingerprint_url.py:fingerprint_hostname": ["fingerprint_url_main"]},
+    "function_sidecars": {'ural/utils.py:unsplit_netloc': ["utils"], "ural/fingerprint_url.py:fingerprint_url": ["fingerprint_url_main"], "ural/fingerprint_url.py:fingerprint_hostname": ["fingerprint_url_main"]},
     "bounded": ["bcheck.c06"],
     "explanation": (
         "Deciding step is BOUNDED: fingerprint_url(T(u)) == fingerprint_url(u) for case flips of every component, ports, ISO-3166 language labels "
